@@ -66,6 +66,8 @@ def symbolToIndexSymbol (name : String) : IndexSymbol :=
   match cs with
   | [] => ⟨"", "", ""⟩
   | c0 :: _ =>
+    -- names with type parameters / arguments are not looked up in the index
+    if cs.contains '[' then ⟨"", "", ""⟩ else
     if c0 = '(' then
       match indexOfChar ')' cs with
       | none => ⟨"", "", ""⟩
@@ -84,6 +86,11 @@ def symbolToIndexSymbol (name : String) : IndexSymbol :=
       | some d => ⟨String.ofList (cs.take d), "", String.ofList (cs.drop (d + 1))⟩
 
 /-! ## collectSymbols -/
+
+/-- match.go `isNil` on a pattern node that is not Go-nil: it is `Nil{}` -/
+def isNilp : Pat → Bool
+  | .nilp => true
+  | _ => false
 
 /-- the closure `and` of collectSymbols -/
 def andAdd (out : List SymPat) (c : SymPat) : List SymPat :=
@@ -125,7 +132,10 @@ def collectSymbols : Pat → Bool → SymPat
   | .bindAny _, _ => .any
   | .any, _ => .any
   | .lnil, _ => .any
-  | .lcons h t, b => andFinish (andAdd (andAdd [] (collectSymbols h b)) (collectSymbols t b))
+  | .lcons h t, b =>
+    -- `isNil(node.Head)`: a list without a head matches the empty list and ignores its tail
+    if isNilp h then .any
+    else andFinish (andAdd (andAdd [] (collectSymbols h b)) (collectSymbols t b))
   | .nilp, _ => .any
   | .builtin nm, b => andFinish (andAdd [] (collectSymbols nm b))
   | .object nm, b => andFinish (andAdd [] (collectSymbols nm b))
@@ -289,10 +299,6 @@ structure World where
   constVal : Tree → Option String
 
 abbrev State := List (String × Tree)
-
-def isNilp : Pat → Bool
-  | .nilp => true
-  | _ => false
 
 /-- the object Symbol.Match resolves a (peeled) expression to -/
 def identObj : Tree → Option Nat
